@@ -9,8 +9,9 @@ from chython.containers.bonds import Bond
 from chython.exceptions import InvalidAromaticRing
 
 ID = 'C13'
-RULE = ('histories over an alphabet of 16 mutators (add_atom, add_bond 1/2, delete_atom, delete_bond, charge / radical '
-        'change inside `with mol:`, raising transaction, remap, copy+edit, substructure+edit, |, |=, kekule/thiele, '
+RULE = ('histories over an alphabet of 17 mutators (add_atom, add_bond 1/2, delete_atom, delete_bond, charge / radical '
+        'change inside `with mol:`, mixed transaction (structural edits + partial remap + label edits in one block, 6 shapes), '
+        'raising transaction, remap, copy+edit, substructure+edit, |, |=, kekule/thiele, '
         'clean_stereo, coordinate edit on a copy) with a reader of derived values (str, hash, sssr, atoms_order, brutto, '
         'rings_count, components, fingerprints, stereo views ...) interposed before every mutator: exhaustive sequences up '
         'to length 3 (quick) / 4 (thorough) on 6 seed molecules + long random histories on corpus molecules; after every '
@@ -25,11 +26,11 @@ CONFIG = {
               'exhaustive_subspaces': ['all mutator sequences of length <= 3 over the op alphabet on 6 seed molecules, '
                                        'one interposed reader per step rotating through all readers'],
               'floors': {'evaluations': 20000, 'distinct_nontrivial': 3000, 'steps.compared': 20000,
-                         'invariant.evaluations': 20000, 'txn.raising': 500, 'copies.checked': 1000}},
+                         'invariant.evaluations': 20000, 'txn.raising': 500, 'copies.checked': 1000, 'txn.mixed.with-renumbering': 500}},
     'thorough': {'shards': 16, 'budget_s': 1800, 'depth': 4, 'n_random': 6000, 'random_len': 200,
                  'exhaustive_subspaces': ['all mutator sequences of length <= 4 over the op alphabet on 6 seed molecules'],
                  'floors': {'evaluations': 400000, 'distinct_nontrivial': 50000, 'steps.compared': 400000,
-                            'invariant.evaluations': 400000, 'txn.raising': 10000, 'copies.checked': 20000}},
+                            'invariant.evaluations': 400000, 'txn.raising': 10000, 'copies.checked': 20000, 'txn.mixed.with-renumbering': 10000}},
 }
 
 SEEDS = ['CCO', 'C1CCCCC1O', 'C[C@H](N)C(=O)O', 'C/C=C/CC(=O)[O-]', 'C1CC2CCC1C2', 'OC1=CC=CC=C1']
@@ -374,7 +375,49 @@ def snapshot(mol):
 
 # ---- operations ----------------------------------------------------------------------------------------------------------------
 OPS = ['add_atom', 'add_bond1', 'add_bond2', 'delete_atom', 'delete_bond', 'txn_charge', 'txn_radical', 'txn_raise',
-       'remap', 'copy_edit', 'sub_edit', 'union', 'iunion', 'kekule_thiele', 'clean_stereo', 'txn_multi']
+       'remap', 'copy_edit', 'sub_edit', 'union', 'iunion', 'kekule_thiele', 'clean_stereo', 'txn_multi', 'txn_seq']
+
+
+def txn_prims(mol, a, b, k):
+    """primitive steps of one mixed transaction (structural edits, partial renumbering and label edits in one `with` block);
+    atom numbers are decided here so that the recorded history replays without this function"""
+    atoms = list(mol._atoms)
+    base = max(atoms) + 1
+    v = k % 6
+    if v == 0:      # new atom bonded to a, only the new atom renumbered
+        return [('add_atom', 'N', base), ('add_bond', a, base, 1), ('remap', [(base, base + 5)])]
+    if v == 1:      # new atom bonded to a, only the old atom renumbered
+        return [('add_atom', 'C', base), ('add_bond', a, base, 1), ('remap', [(a, base + 3)])]
+    bl = [(n, m) for n, m, _ in mol.bonds()]
+    if v == 2 and bl:  # bond removed, one of its ends renumbered
+        n, m = bl[k % len(bl)]
+        return [('delete_bond', n, m), ('remap', [(m, base)])]
+    if v == 3 and a != b and b not in mol._bonds[a]:   # bond added, one end renumbered, then the renumbered atom is edited again
+        return [('add_bond', a, b, 1), ('remap', [(b, base)]), ('add_atom', 'O', base + 1), ('add_bond', base, base + 1, 1)]
+    if v == 4 and a != b and len(atoms) > 3:   # atom removed and another grown in one block
+        return [('delete_atom', b), ('add_atom', 'C', base), ('add_bond', a, base, 1), ('charge', base, -1)]
+    # label edit, renumbering of the edited atom, second label edit under the new number
+    return [('charge', a, 1 if mol._atoms[a].charge != 1 else 0), ('remap', [(a, base)]), ('radical', base)]
+
+
+def run_prim(mol, st):
+    name = st[0]
+    if name == 'add_atom':
+        mol.add_atom(st[1], st[2]) if len(st) > 2 else mol.add_atom(st[1])
+    elif name == 'add_bond':
+        mol.add_bond(st[1], st[2], st[3])
+    elif name == 'delete_atom':
+        mol.delete_atom(st[1])
+    elif name == 'delete_bond':
+        mol.delete_bond(st[1], st[2])
+    elif name == 'remap':
+        mol.remap(dict(map(tuple, st[1])))
+    elif name == 'charge':
+        mol.atom(st[1]).charge = st[2]
+    elif name == 'radical':
+        mol.atom(st[1]).is_radical = not mol.atom(st[1]).is_radical
+    else:
+        raise KeyError(name)
 
 
 def kekule_state(mol):
@@ -432,6 +475,17 @@ def apply(ctx, mol, op, k, hist):
             mol.add_bond(a, n, 1)
             mol.atom(n).charge = -1
         hist.append(('txn_multi', a, n))
+        return mol, True
+    if op == 'txn_seq':
+        prims = txn_prims(mol, a, b, k)
+        ctx.count('txn.mixed.variant-%d' % (k % 6))
+        hist.append(('txn_seq', prims))      # recorded first: a raising block keeps its witness
+        with mol:
+            for st in prims:
+                run_prim(mol, st)
+        ctx.count('txn.mixed')
+        if any(st[0] == 'remap' for st in prims):
+            ctx.count('txn.mixed.with-renumbering')
         return mol, True
     if op == 'txn_raise':
         before = snapshot(mol)
@@ -602,7 +656,7 @@ def run_history(ctx, seed_smiles, ops, readers, ks):
             ctx._vc = sum(v['count'] for v in ctx.violations.values())
             return
     key = (seed_smiles, tuple(ops), tuple(ks))
-    nontriv = nmut >= 2 and any(o in ('delete_atom', 'delete_bond', 'txn_raise', 'txn_charge', 'txn_radical', 'txn_multi') for o in ops)
+    nontriv = nmut >= 2 and any(o in ('delete_atom', 'delete_bond', 'txn_raise', 'txn_charge', 'txn_radical', 'txn_multi', 'txn_seq') for o in ops)
     ctx.case(key=key, nontrivial=nontriv, n=0,
              sample={'seed': seed_smiles, 'history': hist} if ctx.rng.random() < .0008 else None)
 
@@ -692,6 +746,10 @@ def replay(ctx, mechanism, w):
                     pass
             elif name == 'remap':
                 mol.remap(dict(map(tuple, step[1])))
+            elif name == 'txn_seq':
+                with mol:
+                    for st in step[1]:
+                        run_prim(mol, [tuple(x) if isinstance(x, list) and st[0] != 'remap' else x for x in st])
             elif name == 'thiele':
                 mol.thiele()
             elif name == 'kekule':
